@@ -61,7 +61,10 @@ type StallCfg struct {
 	Seed    uint64 `json:"seed"`
 	RatePPM int    `json:"rate_ppm"` // probability per yield point, per million
 	MaxNs   int64  `json:"max_ns"`   // longest random stall
-	SitePct int    `json:"site_pct"` // percentage of sites enabled in this run (swarm)
+	// MinNs > 0: every random stall lasts between MinNs and MaxNs (uniform) instead of the default
+	// mix of "1 ns" and log-uniform durations.
+	MinNs   int64 `json:"min_ns,omitempty"`
+	SitePct int   `json:"site_pct"` // percentage of sites enabled in this run (swarm)
 	// Focus restricts random stalls to sites whose file:line contains one of these substrings (empty = all).
 	Focus []string `json:"focus,omitempty"`
 	// Tickets are added on top of the random stalls (PCT-style deliberate deep orderings).
